@@ -497,6 +497,8 @@ def ret_is_error(gf, bid, x):
         for txt, truth in facts:
             if truth and txt in ("(%s < 0)" % n, "(%s <= -1)" % n):
                 return True
+            if truth and txt.startswith("((%s = " % n) and txt.endswith(") < 0)"):
+                return True         # if ((n = f(...)) < 0) return n;
             if (not truth) and txt in ("(%s >= 0)" % n, "(%s == 0)" % n + "__never__"):
                 return True
     return False
